@@ -63,7 +63,7 @@ def apply_edit(db, e):
                 t.note = Note(dec(e['v']))
             else:
                 t.note.text = dec(e['v'])
-    elif op.startswith('col_'):
+    elif op.startswith('col_') or op == 'default_retyped':
         c = db.tables[e['t'] - 1].columns[e['c'] - 1]
         if op == 'col_name':
             c.name = dec(e['v'])
@@ -73,6 +73,9 @@ def apply_edit(db, e):
             attr = {'pk': 'pk', 'unique': 'unique', 'notnull': 'not_null', 'autoinc': 'autoinc'}[e['v']]
             setattr(c, attr, not getattr(c, attr))
         elif op == 'col_default':
+            c.default = builder._default(e['df'])
+        elif op == 'default_retyped':
+            c.default = builder._default(e['first'])
             c.default = builder._default(e['df'])
         elif op == 'col_note':
             if len(db.refs) % 2:
@@ -275,7 +278,7 @@ def main(argv: List[str]) -> int:
             ops[k] = ops.get(k, 0) + 1
             m = h['after']
     rep.notes['edits_applied'] = dict(sorted(ops.items()))
-    want = ['table_name', 'table_schema', 'table_alias', 'table_note', 'col_name', 'col_type:str', 'col_type:enum', 'col_flag', 'col_default',
+    want = ['table_name', 'table_schema', 'table_alias', 'table_note', 'col_name', 'col_type:str', 'col_type:enum', 'col_flag', 'col_default', 'default_retyped',
             'col_note', 'enum_name', 'ref_type:plain', 'ref_type:to_m2m', 'ref_type:from_m2m', 'ref_inline', 'ref_name', 'ref_actions',
             'add_column', 'add_index', 'remove_index', 'dup_index', 'add_enum_item', 'rename_item_add_old', 'add_table', 'delete_table', 'add_ref', 'delete_ref',
             'add_enum', 'delete_enum', 'add_group', 'delete_group', 'add_sticky', 'set_project', 'delete_project']
